@@ -184,6 +184,12 @@ PolyScale(G, deg) == 24 * PowA(G, deg + 2)
 BoxScale(dim) == PowA(BoxL, dim)
 SpecScale(mode, G, deg, dim) == IF mode = "box" THEN BoxScale(dim) ELSE PolyScale(G, deg)
 
+\* modes in which a pair can be decided on a mesh of the class: box -> closed form on the unit box (any degree the
+\* scale divides); poly -> triangle closed forms (2D, degree <= 2); on 2D box meshes BOTH (the two must agree)
+ModesFor(dim, class, deg, exps) ==
+  (IF class = "box" /\ \A e \in exps : BoxOK(e) THEN {"box"} ELSE {})
+  \cup (IF dim = 2 /\ deg >= 0 /\ deg <= 2 THEN {"poly"} ELSE {})
+
 \* ------------------------------------------------------------------------------------------------------
 \* (b) the route machine
 \* ------------------------------------------------------------------------------------------------------
@@ -232,8 +238,10 @@ OpSensible(op, shape, dim, class, T, R) ==    \* a derivative on piecewise const
 
 \* ---- blocked jobs: value type = dim x dim blocks (SparseMatrixBCSR) ------------------------------------------------
 \* mass_b / laplace_b / dudv_b = Identity/Laplace/DuDvOperatorBlocked;  the Burgers assemblers provide all kinds through
-\* their parameters (theta, nu without/with deformation, beta with a convection field, frechet_beta)
-BOpsOf(dim) == {Op("mass_b", << >>), Op("laplace_b", << >>), Op("dudv_b", << >>)}
+\* their parameters (theta, nu without/with deformation, beta with a convection field, frechet_beta);
+\* ugrad_b = a USER operator (implemented by the harness against the documented BilinearOperator interface, not shipped
+\* by FEAT): block (r,c) = (r + 2c - 2) * int d_c(trial) test -- gradient-type, its blocks are symmetric in no sense
+BOpsOf(dim) == {Op("mass_b", << >>), Op("laplace_b", << >>), Op("dudv_b", << >>), Op("ugrad_b", << >>)}
                \cup {Op("conv_b", <<n>>) : n \in 0..2} \cup {Op("frechet_b", <<n>>) : n \in 1..2}
 \* d_c beta_r of a field of the catalogue with linear components (an integer)
 FieldGrad(dim, n, r, c) == LET b == ConvField(dim, n)[r] IN SumA([q \in 1..Len(b) |-> b[q].c * b[q].e[c]])
@@ -244,11 +252,16 @@ BlockOf(bop, dim, r, c) ==
     [] bop.name = "dudv_b"    -> [op |-> Op("dudv", <<r - 1, c - 1>>), s |-> 1]
     [] bop.name = "conv_b"    -> [op |-> Op("conv", bop.p), s |-> Delta(r, c)]
     [] bop.name = "frechet_b" -> [op |-> Op("mass", << >>), s |-> FieldGrad(dim, bop.p[1], r, c)]
+    [] bop.name = "ugrad_b"   -> [op |-> Op("trialderiv", <<c - 1>>), s |-> r + 2 * c - 2]
 BlocksOf(bop, dim) == [r \in 1..dim |-> [c \in 1..dim |-> BlockOf(bop, dim, r, c)]]
-BHasClassic(bop) == bop.name \in {"mass_b", "laplace_b", "dudv_b"}
+BHasClassic(bop) == bop.name \in {"mass_b", "laplace_b", "dudv_b", "ugrad_b"}
+BHasBurgers(bop) == bop.name # "ugrad_b"
 BRoutes(bop, shape, T) ==
-  (IF BHasClassic(bop) THEN {"classic", "domain"} ELSE {}) \cup {"burgers", "burgersjob"}
-  \cup (IF T = "lagrange2" /\ shape = "hypercube" THEN {"voxel"} \cup (IF bop.name = "dudv_b" THEN {"voxeldefo"} ELSE {}) ELSE {})
+  (IF BHasClassic(bop) THEN {"classic", "domain"} ELSE {})
+  \cup (IF BHasBurgers(bop) THEN
+          {"burgers", "burgersjob"}
+          \cup (IF T = "lagrange2" /\ shape = "hypercube" THEN {"voxel"} \cup (IF bop.name = "dudv_b" THEN {"voxeldefo"} ELSE {}) ELSE {})
+        ELSE {})
 BRef(bop) == IF BHasClassic(bop) THEN "classic" ELSE "burgers"
 BOpSensible(bop, shape, dim, class, T) ==
   /\ T \in BlockedSpaces
@@ -260,6 +273,57 @@ BReqDeg(bop, shape, dim, class, T) ==
 \* pairs of routes that run the same evaluation order on one thread (any difference is a divergence, never rounding)
 BitPairs == {<<"classic", "domain">>, <<"burgers", "burgersjob">>}
 
+\* ---- MATRIX-FREE routes: the operator of a job applied to a coefficient vector WITHOUT assembling a matrix ------------------
+\*   apply         BilinearOperatorAssembler::apply1 (scalar jobs on mixed pairs: apply2); value type scalar or blocked
+\*   apply2        BilinearOperatorAssembler::apply2 with the space of the job in both roles (blocked jobs)
+\*   burgersvec    BurgersAssembler::assemble_vector (blocked; the terms nu, theta, beta only: no Frechet / SD term)
+\*   burgersjobvec BurgersBlockedVectorAssemblyJob / BurgersScalarVectorAssemblyJob (every term of the Burgers matrix jobs)
+\*   burgersjobself  the same job with solution vector and convection vector being ONE object (a separate branch of the task)
+\*   voxelvec      VoxelBurgersAssembler::assemble_vector (blocked, terms as burgersvec)
+\*   gradopvec     GradOperatorAssembler::assemble(blocked vector, scalar vector): the gradient matrix applied matrix-free
+\* Laws (for every matrix-free route r of a job whose reference route gives the matrix A):
+\*   ApplyEqualsMatVec   r(x) = A x for the generic coefficient vector x of the harness (component-wise different, not smooth)
+\*   ApplyBilinear       for every probe field P of the catalogue, test monomial v and component row:
+\*                       (v e_row)^T r(P) = sum_c s(row,c) * a_(row,c)(P_c, v)  EXACTLY (scaled integers, as Bilinear(u,v))
+\*   RepeatSemantics     overwrite: a call with alpha into a filled vector gives alpha * A x; accumulate: y + alpha * A x
+MatrixFreeRoutes == {"apply", "apply2", "burgersvec", "burgersjobvec", "burgersjobself", "voxelvec", "gradopvec"}
+\* the Burgers vector assemblers that do not take the job classes' route have no Frechet / streamline-diffusion term
+BVecTermsOnly(bop) == bop.name \in {"mass_b", "laplace_b", "dudv_b", "conv_b"}
+\* apply1 / apply2 with blocked value types: on the operators whose blocks are NOT symmetric (what is specific to blocked value
+\* types in these routes is the handling of the block, everything else is decided by the scalar jobs on the same routes)
+BApplyOps == {"dudv_b", "ugrad_b"}
+BVRoutes(bop, shape, T) ==
+  (IF bop.name \in BApplyOps THEN {"apply", "apply2"} ELSE {})
+  \cup (IF BHasBurgers(bop) THEN {"burgersjobvec"} ELSE {})
+  \cup (IF bop.name = "conv_b" /\ bop.p[1] > 0 THEN {"burgersjobself"} ELSE {})     \* A(v) v with the field itself as the argument
+  \cup (IF BHasBurgers(bop) /\ BVecTermsOnly(bop) THEN
+          {"burgersvec"} \cup (IF T = "lagrange2" /\ shape = "hypercube" THEN {"voxelvec"} ELSE {})
+        ELSE {})
+\* probe fields = the vector fields of the catalogue (ConvField) that lie in the space; constants only where the trial
+\* function is not differentiated (otherwise the identity would read 0 = 0)
+BTrialDeriv(bop) == bop.name \in {"laplace_b", "dudv_b", "conv_b", "ugrad_b"}
+FieldInSpace(dim, n, T, shape, class) == \A k \in 1..dim : \A t \in RangeA(ConvField(dim, n)[k]) : t.e \in Monos(T, shape, dim, class)
+BProbeFields(bop, shape, dim, class, T) ==
+  {n \in 0..2 : FieldInSpace(dim, n, T, shape, class) /\ (n = 0 => ~BTrialDeriv(bop))}
+\* the integrand of (v e_row)^T A P for the probe field P = ConvField(dim, n): a polynomial
+ProbeForm(bop, dim, n, row, v) ==
+  FlatA([c \in 1..dim |->
+     LET B == BlockOf(bop, dim, row, c)   f == ConvField(dim, n)[c] IN
+     FlatA([q \in 1..Len(f) |-> LET F == Form(B.op, dim, f[q].e, v) IN [t \in 1..Len(F) |-> ScaleT(B.s * f[q].c, F[t])]])])
+\* all its terms are homogeneous of this degree (the components of a field have one common degree)
+ProbeDeg(bop, dim, n, v) == FormDeg(BlockOf(bop, dim, 1, 1).op, ConvField(dim, n)[1][1].e, v)
+ProbeTests(T, shape, dim, class) == {v \in IdMonos(T, shape, dim, class) : TotDeg(v) <= 1}
+BProbeIds(bop, n, shape, dim, class, T) ==
+  {id \in {[v |-> v, row |-> r, mode |-> m, fd |-> ProbeDeg(bop, dim, n, v)] :
+             v \in ProbeTests(T, shape, dim, class), r \in 1..dim, m \in {"box", "poly"}} :
+     id.mode \in ModesFor(dim, class, id.fd, {t.e : t \in RangeA(NonZero(ProbeForm(bop, dim, n, id.row, id.v)))})}
+BProbes(bop, shape, dim, class, T) ==
+  [q \in 1..Cardinality(BProbeFields(bop, shape, dim, class, T)) |->
+     LET n == SetToSeqA(BProbeFields(bop, shape, dim, class, T))[q]
+     IN [field |-> n, ids |-> SetToSeqA(BProbeIds(bop, n, shape, dim, class, T))]]
+\* scalar jobs: the Burgers vector job on the Burgers kinds (mass, laplace, conv)
+MatVRoutes(op, T, R) == IF BurgersKind(op) /\ T = R /\ T \in BlockedSpaces THEN {"burgersjobvec"} ELSE {}
+
 \* ---- gradient / divergence special assemblers (velocity space V = test, pressure space P = trial) ----------------------
 \* gpdv   = GradPresDivVeloAssembler::assemble(B, D, V, P, rule, scale_b, scale_d):  B (dim x 1 blocks, rows V, columns P),
 \*          D (1 x dim blocks, rows P, columns V);   B_m = scale_b * S_m,  D_m = scale_d * S_m^T   (GradDivAdjoint)
@@ -267,9 +331,19 @@ BitPairs == {<<"classic", "domain">>, <<"burgers", "burgersjob">>}
 \* gradop = GradOperatorAssembler::assemble(G, test P, trial V, rule, scale):  G_m = scale * int d_m(u) q = scale * S_m^T
 GDPairs == {<<"lagrange2", "disc1">>, <<"crrt", "disc0">>}
 GDScales == <<<<-2, -2>>, <<4, -1>>>>        \* (scale_b, scale_d) as numerators over 2: the defaults (-1,-1) and (2,-1/2)
+GDVecIds(shape, dim, class, V, P) ==
+  {id \in {[u |-> u, v |-> q, row |-> m, mode |-> md, fd |-> TotDeg(u) + TotDeg(q) - 1] :
+             u \in {e \in IdMonos(V, shape, dim, class) : TotDeg(e) \in 1..2}, q \in {e \in IdMonos(P, shape, dim, class) : TotDeg(e) <= 1},
+             m \in 1..dim, md \in {"box", "poly"}} :
+     id.mode \in ModesFor(dim, class, id.fd, {t.e : t \in RangeA(Form(Op("trialderiv", <<id.row - 1>>), dim, id.u, id.v))})}
 GDJob(shape, dim, class, V, P, sl) ==
   [k |-> "gd", deg |-> ReqDegMat(shape, dim, class, V, P, Op("testderiv", <<0>>)) + sl, scales |-> GDScales,
-   routes |-> <<"gpdv", "gradop">>, ref |-> "classic", blk |-> [m \in 1..dim |-> Op("testderiv", <<m - 1>>)]]
+   routes |-> <<"gpdv", "gradop">>, ref |-> "classic", blk |-> [m \in 1..dim |-> Op("testderiv", <<m - 1>>)],
+   \* the gradient matrix G (test P, trial V) applied matrix-free to the coefficients of a velocity-space monomial u:
+   \* (q e_m)^T gradopvec(u) = int d_m(u) q  EXACTLY, for every pressure-space monomial q
+   \* (matrix-free routes are executed with the rule of the required degree only: sl = 0)
+   vroutes |-> IF sl = 0 THEN <<"gradopvec">> ELSE << >>,
+   vids |-> IF sl = 0 THEN SetToSeqA(GDVecIds(shape, dim, class, V, P)) ELSE << >>]
 
 \* ---- Burgers parameter combinations ------------------------------------------------------------------------------------
 \* The Burgers assemblers build  nu*L (gradient or deformation form) + theta*M + beta*K(v) + frechet_beta*K'(v) + S(sd_delta)
@@ -308,7 +382,9 @@ BParJobs(shape, dim, class, T) ==
 \* accumulate: the result of the call is ADDED (alpha-weighted) onto the existing contents (AssembleTwice);
 \* overwrite : the target is formatted first, a repeated call reproduces the result of the first call (RepeatOverwrites)
 \* (apply1/apply2 format their output vector: a call with alpha into a filled vector yields alpha * A x)
-RepeatSemantics(r) == IF r \in {"gpdv", "gradop", "apply"} THEN "overwrite" ELSE "accumulate"
+\* (burgersvec / voxelvec / gradopvec add scale * A x onto the vector; the Burgers vector JOBS add A x, the scaling is in
+\* the parameters of the job)
+RepeatSemantics(r) == IF r \in {"gpdv", "gradop", "apply", "apply2"} THEN "overwrite" ELSE "accumulate"
 
 \* ---- two-level (inter-mesh) sparsity contract ----------------------------------------------------------------------
 \* Pat_2lvl(fine space, coarse space) = union over coarse cells c of Dofs_fine(children(c)) x Dofs_coarse(c):  the pattern of
@@ -339,12 +415,6 @@ VecRoutes(fn) == {"classic", "domain"} \cup (IF fn.name = "force" THEN {"domainf
 \* ------------------------------------------------------------------------------------------------------
 \* identities of a job
 \* ------------------------------------------------------------------------------------------------------
-\* modes in which a pair can be decided on a mesh of the class: box -> closed form on the unit box (any degree the
-\* scale divides); poly -> triangle closed forms (2D, degree <= 2); on 2D box meshes BOTH (the two must agree)
-ModesFor(dim, class, deg, exps) ==
-  (IF class = "box" /\ \A e \in exps : BoxOK(e) THEN {"box"} ELSE {})
-  \cup (IF dim = 2 /\ deg >= 0 /\ deg <= 2 THEN {"poly"} ELSE {})
-
 MatIds(op, shape, dim, class, T, R) ==
   {id \in {[u |-> u, v |-> v, mode |-> m, fd |-> FormDeg(op, u, v)] :
              u \in IdMonos(R, shape, dim, class), v \in IdMonos(T, shape, dim, class), m \in {"box", "poly"}} :
@@ -375,6 +445,7 @@ Alphas == <<-1, 4, 2>>
 MatJob(op, shape, dim, class, T, R, sl) ==
   [k |-> "mat", op |-> op, deg |-> ReqDegMat(shape, dim, class, T, R, op) + sl, alphas |-> Alphas,
    routes |-> SetToSeqA(MatRoutes(op, shape, dim, T, R)), ref |-> RefRoute(op),
+   vroutes |-> IF sl = 0 THEN SetToSeqA(MatVRoutes(op, T, R)) ELSE << >>,
    ids |-> SetToSeqA(MatIds(op, shape, dim, class, T, R))]
 VecJob(fn, shape, dim, class, T, sl) ==
   [k |-> "vec", fn |-> fn, deg |-> ReqDegVec(shape, dim, class, T, fn) + sl, alphas |-> Alphas,
@@ -391,7 +462,9 @@ GDJobs(shape, dim, class, V, P) ==
   IF <<V, P>> \in GDPairs THEN {GDJob(shape, dim, class, V, P, sl) : sl \in 0..DegSlack} ELSE {}
 BlkJob(bop, shape, dim, class, T, sl) ==
   [k |-> "blk", bop |-> bop, deg |-> BReqDeg(bop, shape, dim, class, T) + sl, alphas |-> Alphas,
-   routes |-> SetToSeqA(BRoutes(bop, shape, T)), ref |-> BRef(bop), blocks |-> BlocksOf(bop, dim)]
+   routes |-> SetToSeqA(BRoutes(bop, shape, T)), ref |-> BRef(bop), blocks |-> BlocksOf(bop, dim),
+   vroutes |-> IF sl = 0 THEN SetToSeqA(BVRoutes(bop, shape, T)) ELSE << >>,
+   probes |-> IF sl = 0 THEN BProbes(bop, shape, dim, class, T) ELSE << >>]
 BlkJobs(shape, dim, class, T) ==
   {BlkJob(bop, shape, dim, class, T, sl) : bop \in {b \in BOpsOf(dim) : BOpSensible(b, shape, dim, class, T)}, sl \in 0..DegSlack}
 
@@ -427,4 +500,23 @@ FormLaw == \A op \in OpsOf(plan.dim) : \A u, v \in PSet(plan.dim, 1) :
                    = SumA([q \in 1..Len(Form(op, plan.dim, v, u)) |-> IF Form(op, plan.dim, v, u)[q].e = e THEN Form(op, plan.dim, v, u)[q].c ELSE 0]))
              /\ (KernelTrial(op) => Form(op, plan.dim, [k \in 1..plan.dim |-> 0], v) = << >>)
              /\ (KernelTest(op) => Form(op, plan.dim, u, [k \in 1..plan.dim |-> 0]) = << >>)
+\* the probe fields separate every blocked operator of the catalogue from its block-transpose (the operator that applies
+\* every dim x dim block transposed, e.g. Vector * Matrix instead of Matrix * Vector in a matrix-free route): whenever the
+\* block structure is not symmetric there are a probe field, a row and a test monomial of degree <= 1 whose ApplyBilinear
+\* integrands differ as polynomials -- decided on the monomials every velocity space contains on every mesh class but "general" 3D
+PolyCoef(p, e) == SumA([q \in 1..Len(p) |-> IF p[q].e = e THEN p[q].c ELSE 0])
+PolyEq(p, q) == \A e \in {p[k].e : k \in 1..Len(p)} \cup {q[k].e : k \in 1..Len(q)} : PolyCoef(p, e) = PolyCoef(q, e)
+ProbeFormT(bop, dim, n, row, v) ==       \* the same with block (c, row) in the place of block (row, c)
+  FlatA([c \in 1..dim |->
+     LET B == BlockOf(bop, dim, c, row)   f == ConvField(dim, n)[c] IN
+     FlatA([q \in 1..Len(f) |-> LET F == Form(B.op, dim, f[q].e, v) IN [t \in 1..Len(F) |-> ScaleT(B.s * f[q].c, F[t])]])])
+BlockSymmetric(bop, dim) ==
+  \A r, c \in 1..dim : \A u, v \in PSet(dim, 1) :
+     LET A == BlockOf(bop, dim, r, c)   B == BlockOf(bop, dim, c, r)
+     IN PolyEq([t \in 1..Len(Form(A.op, dim, u, v)) |-> ScaleT(A.s, Form(A.op, dim, u, v)[t])],
+               [t \in 1..Len(Form(B.op, dim, u, v)) |-> ScaleT(B.s, Form(B.op, dim, u, v)[t])])
+ProbeLaw == \A bop \in BOpsOf(plan.dim) :
+              \/ BlockSymmetric(bop, plan.dim)
+              \/ \E n \in {k \in 0..2 : k = 0 => ~BTrialDeriv(bop)} : \E row \in 1..plan.dim : \E v \in PSet(plan.dim, 1) :
+                    ~PolyEq(ProbeForm(bop, plan.dim, n, row, v), ProbeFormT(bop, plan.dim, n, row, v))
 =============================================================================
